@@ -832,3 +832,47 @@ Lemma load_panics_unknown_type : load_db_value (repeat x00 16) [] = Panic.
 Proof. reflexivity. Qed.
 Lemma load_panics_short_i64 : load_db_value (repeat x00 15 ++ [x23]) [] = Panic.
 Proof. reflexivity. Qed.
+
+(* ---- the statements pinned in Props/C12.v ---- *)
+
+Lemma roundtrip_full :
+  forall (alloc : store -> N) (v : dbvalue) (st : store),
+    wf_value v = true -> alloc_ok alloc st ->
+    let (ix, st') := store_db_value alloc v st in
+    load_db_value ix st' = Ok v /\
+    (forall st'', extends st' st'' -> load_db_value ix st'' = Ok v) /\
+    length ix = 16%nat /\
+    (st' = st \/ exists b, st' = (alloc st, b) :: st) /\
+    (forall i b, lookup i st = Some b -> lookup i st' = Some b).
+Proof.
+  intros alloc v st Hwf Hal.
+  pose proof (store_load_roundtrip alloc v st Hwf Hal) as H1.
+  pose proof (store_load_roundtrip_ext alloc v st) as H2.
+  pose proof (store_ix_wf alloc v st) as H3.
+  pose proof (store_adds_only alloc v st) as H4.
+  destruct (store_db_value alloc v st) as [ix st']. cbn [fst snd] in *.
+  split; [exact H1|]. split; [intros st'' He; now apply H2|]. split; [exact H3|].
+  split; [exact H4|]. exact (adds_only_extends alloc st st' Hal H4).
+Qed.
+
+Lemma kv_roundtrip_full :
+  forall (alloc : store -> N) (k v : dbvalue) (st : store),
+    wf_value k = true -> wf_value v = true ->
+    alloc_ok alloc st -> alloc_ok alloc (snd (store_db_value alloc k st)) ->
+    length (fst (store_kv alloc k v st)) = 32%nat /\
+    load_kv (fst (store_kv alloc k v st)) (snd (store_kv alloc k v st)) = Ok (k, v).
+Proof.
+  intros alloc k v st Hk Hv H0 H1. split; [apply store_kv_length|now apply kv_roundtrip].
+Qed.
+
+Lemma remove_frees_exactly_full :
+  forall (alloc : store -> N) (v : dbvalue) (st : store),
+    alloc_ok alloc st ->
+    remove_value (fst (store_db_value alloc v st)) (snd (store_db_value alloc v st)) = Ok st /\
+    (is_value (fst (store_db_value alloc v st)) = false ->
+       lookup (vi_index (fst (store_db_value alloc v st))) (snd (store_db_value alloc v st)) <> None /\
+       lookup (vi_index (fst (store_db_value alloc v st))) st = None).
+Proof.
+  intros alloc v st Hal. split; [now apply remove_frees_exactly|].
+  intros H. now apply remove_unreadable.
+Qed.
